@@ -385,9 +385,12 @@ Section Strict.
     iterM (fun s =>
              let le0 := {| le_match := m; le_full := st_full_stanza_idx st; le_caps := [];
                            le_ctx := {| sc_stmt := (0, 0); sc_stanza := st_start st; sc_node := 0 |} |} in
-             n <- full_match_node le0 ;;
-             let c := {| sc_stmt := stmt_loc s; sc_stanza := st_start st; sc_node := n |} in
-             ctx_wrap (CtxStmts [c]) (exec_stmt fuel (le_with_ctx le0 c) s))
+             match nodes_for_capture m (st_full_stanza_idx st) with
+             | [] => panic P_missing_full_capture              (* .expect("missing full capture") *)
+             | n :: _ =>
+                 let c := {| sc_stmt := stmt_loc s; sc_stanza := st_start st; sc_node := n |} in
+                 ctx_wrap (CtxStmts [c]) (exec_stmt fuel (le_with_ctx le0 c) s)
+             end)
           (st_stmts st).
 
   (* File::execute_strict_into after check_globals: stanzas in file order, matches in oracle order *)
